@@ -97,6 +97,23 @@ def check_period(chk, p, o):
         _expect(chk, nxt == d1 + 1, "period:tiling:%s" % f, "%s ends on day %d but its successor starts on %d" % (o["repr"], d1, nxt), payload)
     except Exception as ex:
         chk.mismatch("period:ymd:%s:%s" % (f, type(ex).__name__), "%s calendar dates raised %r" % (o["repr"], ex), payload)
+    # --- every calendar day belongs to exactly the period the calendar says (tiling, seen from the days) -------
+    if f == "D":
+        try:
+            import datetime
+            day = datetime.date.fromordinal(o["n"])
+            for g, per_pos in o["rf"].items():
+                trip = per_pos["start"][0]
+                want = cal.CTOR[g](trip[1], trip[2])
+                got = ir.Period.from_python_date(day, frequency=cal.FREQ[g])
+                got2 = ir.Period.from_ymd(cal.FREQ[g], day.year, day.month, day.day)
+                ok = got == want and got2 == want and (got.year, got.segment) == (trip[1], trip[2])
+                d0 = got.to_python_date(position="start").toordinal()
+                d1 = got.to_python_date(position="end").toordinal()
+                ok = ok and d0 <= o["n"] <= d1
+                _expect(chk, ok, "period:day-membership:%s" % g, "day %s belongs to %r (days %d..%d), spec %r" % (day, got, d0, d1, want), payload)
+        except Exception as ex:
+            chk.mismatch("period:day-membership:%s" % type(ex).__name__, "%s: period containing the day raised %r" % (o["repr"], ex), payload)
     # --- keyword shifts ---------------------------------------------------------------------------
     for kw, n in o["kw"].items():
         try:
